@@ -4,6 +4,7 @@ package generator
 
 import (
 	"math"
+	"strconv"
 	"strings"
 
 	"github.com/atombender/go-jsonschema/internal/zzvrt"
@@ -297,4 +298,14 @@ func HarnessL3() {
 	zzvrt.Check("C06.L3.length-pattern", zzvrt.Implies(zzvrt.And(zzvrt.And(nd, zzvrt.And(noItems, zzvrt.Not(f.nullObject))), f.others("str")), zzvrt.Iff(accepted, f.str)), bytesDev, refDev)
 	zzvrt.Check("C07.L3.array-limits", zzvrt.Implies(zzvrt.And(zzvrt.And(nd, zzvrt.And(noBytes, zzvrt.Not(f.nullObject))), f.others("arr")), zzvrt.Iff(accepted, f.arr)), items, nested, refArr)
 	zzvrt.Check("C08.L3.enum", zzvrt.Implies(zzvrt.And(base, f.others("enum")), zzvrt.Iff(accepted, f.enum)))
+	if viaRef && ps.kind == "array" && ps.items != nil && strings.HasPrefix(ps.items.kind, "enum") {
+		// an array DEFINITION keeps no validation of its own (recorded finding), but its elements
+		// are still values of the enumeration's type: whatever is accepted holds members only
+		nonNull := true
+		for i := 0; i < n; i++ {
+			nonNull = zzvrt.And(nonNull, zzvrt.Not(zzvrt.DIs(d, "x/"+strconv.Itoa(i), zzvrt.KNull)))
+		}
+		zzvrt.Check("C08.L3.enum-members-of-a-declared-array",
+			zzvrt.Implies(zzvrt.And(zzvrt.And(nd, noBytes), zzvrt.And(zzvrt.Not(f.nullObject), nonNull)), zzvrt.Implies(accepted, f.enum)))
+	}
 }
